@@ -10,7 +10,9 @@ A pattern is Python source in which
   ...        as a statement in a body matches any (possibly empty) run of statements; as a call argument matches any remaining
              arguments; as an expression matches any expression.
 Everything else must match node for node (constants by value, attribute and keyword names by spelling, operators by type).
-Comments, blank lines, line breaks, parenthesisation and quoting style never matter (the comparison is on the AST).
+Comments, blank lines, line breaks, parenthesisation and quoting style never matter (the comparison is on the AST), and patterns
+are put into the same normal form as the analysed code (engine.normal): `x = x + e` / `x += e`, the orientation of a comparison
+and `if not C: A else: B` / `if C: B else: A` are one spelling each, so a pattern may be written either way.
 
 find(func_node, "stmt; stmt", env)       -> first place where the statement sequence occurs consecutively in any body of func
 has(func_node, pattern, env)             -> bool
@@ -158,14 +160,16 @@ _cache: dict = {}
 
 def parse(pattern: str):
     if pattern not in _cache:
-        _cache[pattern] = ast.parse(_prep(pattern)).body
+        from .normal import normalise
+        _cache[pattern] = normalise(ast.parse(_prep(pattern))).body
     return _cache[pattern]
 
 
 def parse_expr(pattern: str):
     key = ("e", pattern)
     if key not in _cache:
-        _cache[key] = ast.parse(pattern.strip(), mode="eval").body
+        from .normal import normalise
+        _cache[key] = normalise(ast.parse(pattern.strip(), mode="eval")).body
     return _cache[key]
 
 
